@@ -37,7 +37,7 @@ ASSUMPTIONS = [
 ]
 EXHAUSTIVE = "all 720 (section order x ~A position) layouts; every title spelling of every section kind"
 REQUIRED = ["reads", "tags_checked", "cells_checked", "layouts_data_not_last", "lowercase_title_cases", "steering_name_cases",
-            "custom_sections_checked", "other_lines_checked", "other_sections_with_blank_lines", "header_only_reads", "rereads_into_same_object"]
+            "custom_sections_checked", "other_lines_checked", "other_sections_with_blank_lines", "header_only_reads", "rereads_into_same_object", "empty_data_sections"]
 SOFT_DEADLINE = {"quick": 90, "thorough": 1200}
 LEVEL_TEXT = ("Exploration with an exactly-once conservation oracle over unique tags and coordinate-carrying cells; the "
               "section-order space (720 layouts) and the documented title spellings are enumerated completely.")
@@ -54,6 +54,13 @@ def grid(tier):
             order.insert(apos, "A")
             k += 1
             yield {"order": order, "spell": "random", "seed": k, "engine": "numpy" if k % 2 else "normal", "steer": None, "extra": 0}
+    for perm in (["W", "C", "P", "O", "X"], ["C", "W", "X", "O", "P"], ["P", "X", "O", "C", "W"]):
+        for apos in range(6):
+            for engine in ("numpy", "normal"):
+                order = list(perm)
+                order.insert(apos, "A")
+                k += 1
+                yield {"order": order, "spell": "random", "seed": 5 * k + 2, "engine": engine, "steer": None, "extra": 0, "empty_data": True}
     for kind in "VWCPOA":
         for sp in range(6):
             for engine in ("numpy", "normal"):
@@ -80,7 +87,8 @@ def random_case(rng, tier):
     order.insert(rng.randint(0, len(order)), "A")
     steer = [rng.randrange(len(STEER)), rng.choice(["C", "P", "X"])] if rng.random() < 0.3 else None
     return {"order": order, "spell": "random" if rng.random() < 0.7 else {}, "seed": rng.randrange(10 ** 9),
-            "engine": rng.choice(["numpy", "normal"]), "steer": steer, "extra": extra, "drop": rng.choice([None, None, None, "P", "O", "X"])}
+            "engine": rng.choice(["numpy", "normal"]), "steer": steer, "extra": extra, "drop": rng.choice([None, None, None, "P", "O", "X"]),
+            "empty_data": steer is None and rng.random() < 0.08}
 
 
 def build(case):
@@ -102,6 +110,8 @@ def build(case):
     order = [k for k in case["order"] if k != case.get("drop")]
     c = rng.randint(1, 5)
     r = rng.randint(1, 4)
+    if case.get("empty_data"):
+        r = 0                 # "forall section sizes incl. empty": the ~A title is directly followed by the next title (or the end)
     secs = [{"kind": "V", "title": title("V"), "items": [["VERS", "", "2.0", t()], ["WRAP", "", "NO", t()]] +
              [["VX%d" % i, "", "vv%d" % i, t()] for i in range(rng.randint(0, 2))]}]
     customs = list(CUSTOM_TITLES)
@@ -242,6 +252,13 @@ def run_case(case, ctx):
         return
     a = next(s for s in secs if s["kind"] == "A")
     rows = a["rows"]
+    if not rows:
+        ctx.count("empty_data_sections")
+        bad = [len(np.asarray(cu.data)) for cu in las.curves if len(np.asarray(cu.data)) != 0]
+        if len(las.curves) != ncurves_declared or bad:
+            V("empty-data-section:%s" % cls, "%d curves with lengths %r after an empty ~A; %d declared" % (len(las.curves), [len(cu.data) for cu in las.curves], ncurves_declared), detail)
+        ctx.case_done([kinds_in_order, "empty-data", case.get("steer"), case["engine"]], nontrivial=len(secs) >= 4)
+        return
     r, c = len(rows), len(rows[0])
     has_null = any(s["kind"] == "W" for s in secs)
     curves = list(las.curves)
